@@ -723,6 +723,11 @@ def run(run: Run):
     model_ok = (common.COQ / 'theories' / 'C01' / 'Eval.vo').exists() and (common.COQ / 'gen' / 'SchemaGen.vo').exists() and \
         not any(b[0].startswith('translator:') for b in run.broken)
 
+    try:
+        from translate import tr_c02conn
+        tr_c02conn.check_helper_pins(common.SRC)
+    except Exception as e:
+        run.add_broken('helper-pins (exceptions / connection state / send-receive glue)', f'{type(e).__name__}: {e}')
     pin = L.load_pinned()
     play = pin['layout']
     cur = None
@@ -747,7 +752,9 @@ def run(run: Run):
     vec = vectors_check(run, play, cur, pin)
 
     # --- generated messages
-    per_class = 4 if run.tier == 'quick' else 20
+    # a broken tie (translator, fingerprint, proof, layout, helper pin) triggers the longer directed search
+    eff_tier = 'thorough' if run.broken else run.tier
+    per_class = 4 if eff_tier == 'quick' else 20
     focus = {d['where'].split('.')[0] + '.' + d['where'].split('.')[1] for d in diffs if d['where'].count('.') >= 1 and d['where'].split('.')[0] not in ('primitives', 'records', 'family_id_width')}
     cases = []
     for m in play['messages']:
@@ -769,7 +776,7 @@ def run(run: Run):
     run.count('message_classes', len(play['messages']))
 
     # --- obfuscation
-    okeys, oexplicit, garb = obf_cases(run, 4 if run.tier == 'quick' else 16)
+    okeys, oexplicit, garb = obf_cases(run, 4 if eff_tier == 'quick' else 16)
     for key, plain, obf in [(bytes.fromhex(a), b.encode(), bytes.fromhex(c)) for a, b, c in pin.get('obfuscation_vectors', [])]:
         from aioslsk.protocol import obfuscation
         if obfuscation.encode(plain, key=key) != obf or obfuscation.decode(obf) != plain:
@@ -797,10 +804,10 @@ def run(run: Run):
     connection_decode_sweep(run, play)
 
     # --- the real send paths
-    sends = send_path_cases(run, play, 1 if run.tier == 'quick' else 8)
+    sends = send_path_cases(run, play, 1 if eff_tier == 'quick' else 8)
 
     # --- strings
-    scases = string_cases(run, 80 if run.tier == 'quick' else 1500)
+    scases = string_cases(run, 80 if eff_tier == 'quick' else 1500)
 
     # --- L2: model vs implementation
     if model_ok and cur:
